@@ -32,9 +32,12 @@ def layer(draw, cls, scan, pool, kinds, max_width, names=NAMES, zmax=1,
     options = []
     if "box" in kinds:
         options += ["new", "new"]
-        if any(find(scan, g["dom"]) for g in pool):
+        if any(find(scan, g["dom"]) for g in pool
+               if len(scan) - len(g["dom"]) + len(g["cod"]) <= max_width):
             options += ["reuse", "reuse"]
-        if "dagger" in kinds and any(find(scan, g["cod"]) for g in pool):
+        if "dagger" in kinds and any(
+                find(scan, g["cod"]) for g in pool
+                if len(scan) - len(g["cod"]) + len(g["dom"]) <= max_width):
             options += ["reuse-dag"]
     if "swap" in kinds and len(scan) >= 2:
         options.append("swap")
@@ -70,8 +73,9 @@ def layer(draw, cls, scan, pool, kinds, max_width, names=NAMES, zmax=1,
         n_out = draw(st.integers(0 if n_in else min(1, room), min(3, room)))
         return {"k": "spider", "n": [n_in, n_out], "t": t}, off
     if kind in ("reuse", "reuse-dag"):
-        key = "dom" if kind == "reuse" else "cod"
+        key, other = ("dom", "cod") if kind == "reuse" else ("cod", "dom")
         cands = [(i, off) for i, g in enumerate(pool)
+                 if len(scan) - len(g[key]) + len(g[other]) <= max_width
                  for off in find(scan, g[key])]
         i, off = draw(st.sampled_from(cands))
         g = pool[i]
@@ -115,18 +119,28 @@ def payloads():
 
 
 KINDS = {
+    "cat": ("box", "dagger"),
     "monoidal": ("box", "dagger", "swap"),
     "rigid": ("box", "dagger", "swap", "cup", "cap"),
+    "tensor": ("box", "dagger", "swap", "spider"),
 }
+CLASS_NAMES = {"tensor": [2, 3]}
+LAYER_FN = {}  # cls -> composite strategy fn(scan, max_width, **kw)
 
 
 @st.composite
 def diagrams(draw, cls="monoidal", max_boxes=6, max_width=5, dom=None,
              kinds=None, names=NAMES, zmax=1, pool=None, min_boxes=0,
              max_arity=3, data=False, max_dom=3, connected=False):
-    kinds = KINDS[cls] if kinds is None else kinds
+    kinds = KINDS.get(cls, ()) if kinds is None else kinds
+    if names is NAMES:
+        names = CLASS_NAMES.get(cls, NAMES)
+    one = cls == "cat"
+    if one:
+        max_arity = 1
     if dom is None:
-        dom = draw(types(cls, 0, min(max_dom, max_width), names, zmax))
+        dom = draw(types(cls, 1 if one else 0,
+                         1 if one else min(max_dom, max_width), names, zmax))
     pool = [] if pool is None else pool
     scan = [list(x) for x in dom]
     layers = []
@@ -134,10 +148,14 @@ def diagrams(draw, cls="monoidal", max_boxes=6, max_width=5, dom=None,
     for i in range(n):
         if connected and i > 0 and not scan:
             break
-        b, off = draw(layer(
-            cls, scan, pool, kinds, max_width, names, zmax, max_arity, data,
-            min_dom=1 if connected and i > 0 else 0,
-            min_cod=1 if connected and i < n - 1 else 0))
+        if cls in LAYER_FN:
+            b, off = draw(LAYER_FN[cls](scan, max_width))
+        else:
+            b, off = draw(layer(
+                cls, scan, pool, kinds, max_width, names, zmax, max_arity,
+                data,
+                min_dom=1 if one or connected and i > 0 else 0,
+                min_cod=1 if one or connected and i < n - 1 else 0))
         from harness.specs import bdom, bcod
         layers.append([b, off])
         scan = scan[:off] + bcod(b) + scan[off + len(bdom(b)):]
